@@ -4,8 +4,6 @@
 package logicalplan
 
 import (
-	"sort"
-
 	"github.com/prometheus/prometheus/model/labels"
 	"github.com/prometheus/prometheus/promql/parser"
 )
@@ -56,65 +54,40 @@ func propagateMatchers(binOp *parser.BinaryExpr) {
 		return
 	}
 
-	lhMatchers := toMatcherMap(lhSelector)
-	rhMatchers := toMatcherMap(rhSelector)
-	union, hasDuplicates := makeUnion(lhMatchers, rhMatchers)
-	if hasDuplicates {
-		return
-	}
-
-	finalMatchers := toSlice(union)
-	lhSelector.LabelMatchers = finalMatchers
-	rhSelector.LabelMatchers = finalMatchers
+	// Series matched one-to-one on all labels have identical label sets (except for
+	// the metric name), so every non-name matcher of one side also holds for the
+	// other side. Each side keeps its own matchers, including the one on the name.
+	lhMatchers := nonNameMatchers(lhSelector.LabelMatchers)
+	rhMatchers := nonNameMatchers(rhSelector.LabelMatchers)
+	lhSelector.LabelMatchers = addMissingMatchers(lhSelector.LabelMatchers, rhMatchers)
+	rhSelector.LabelMatchers = addMissingMatchers(rhSelector.LabelMatchers, lhMatchers)
 }
 
-func toSlice(union map[string]*labels.Matcher) []*labels.Matcher {
-	finalMatchers := make([]*labels.Matcher, 0, len(union))
-	for _, m := range union {
-		finalMatchers = append(finalMatchers, m)
+func nonNameMatchers(matchers []*labels.Matcher) []*labels.Matcher {
+	result := make([]*labels.Matcher, 0, len(matchers))
+	for _, m := range matchers {
+		if m.Name != labels.MetricName {
+			result = append(result, m)
+		}
 	}
-
-	sort.Slice(finalMatchers, func(i, j int) bool { return finalMatchers[i].Name < finalMatchers[j].Name })
-	return finalMatchers
+	return result
 }
 
-func makeUnion(lhMatchers map[string]*labels.Matcher, rhMatchers map[string]*labels.Matcher) (map[string]*labels.Matcher, bool) {
-	union := make(map[string]*labels.Matcher)
-	for _, m := range lhMatchers {
-		if m.Name == labels.MetricName {
-			continue
+// addMissingMatchers returns matchers extended by those of extra which it does not contain yet.
+func addMissingMatchers(matchers []*labels.Matcher, extra []*labels.Matcher) []*labels.Matcher {
+	result := make([]*labels.Matcher, len(matchers), len(matchers)+len(extra))
+	copy(result, matchers)
+	for _, e := range extra {
+		found := false
+		for _, m := range result {
+			if m.String() == e.String() {
+				found = true
+				break
+			}
 		}
-		if duplicateExists(rhMatchers, m) {
-			return nil, true
+		if !found {
+			result = append(result, e)
 		}
-		union[m.Name] = m
 	}
-
-	for _, m := range rhMatchers {
-		if m.Name == labels.MetricName {
-			continue
-		}
-		if duplicateExists(lhMatchers, m) {
-			return nil, true
-		}
-		union[m.Name] = m
-	}
-	return union, false
-}
-
-func toMatcherMap(lhSelector *parser.VectorSelector) map[string]*labels.Matcher {
-	lhMatchers := make(map[string]*labels.Matcher)
-	for _, m := range lhSelector.LabelMatchers {
-		lhMatchers[m.Name] = m
-	}
-	return lhMatchers
-}
-
-func duplicateExists(matchers map[string]*labels.Matcher, matcher *labels.Matcher) bool {
-	existing, ok := matchers[matcher.Name]
-	if !ok {
-		return false
-	}
-
-	return existing.String() == matcher.String()
+	return result
 }
